@@ -404,24 +404,71 @@ func Scan(src string) (toks []*types.Token, fileEnd int) {
 	return toks, f.Base() + len(b)
 }
 
-func TokField(toks []*types.Token) (s string, ok bool) {
-	if len(toks) == 0 {
-		return "-", true
+// Extent computes where a token ends INDEPENDENTLY of Token.End(): position + byte length of the
+// token's slice of the source text.  The slice is found from the token's known spelling (its
+// literal, or the operator's spelling when there is no literal), which must be what the source
+// holds at the token's position; a synthetic token past the end of the source (the automatic
+// `;` at EOF) has the length of its literal.  indep=false: the source does not spell the token
+// there (never seen), the extent then falls back to the spelling length.
+func Extent(t *types.Token, src string, base int) (end int, indep bool) {
+	off := int(t.Pos) - base
+	sp := t.Lit
+	if sp == "" {
+		sp = t.Tok.String()
 	}
-	ok = true
+	if off >= len(src) { // synthetic token at EOF
+		return int(t.Pos) + len(sp), true
+	}
+	if sp == "\n" && t.Tok == token.SEMICOLON { // automatic semicolon at a line end
+		if src[off] == '\n' {
+			return int(t.Pos) + 1, true
+		}
+		return int(t.Pos) + 1, false
+	}
+	if off >= 0 && strings.HasPrefix(src[off:], sp) {
+		return int(t.Pos) + len(sp), true
+	}
+	return int(t.Pos) + len(sp), false
+}
+
+// TokInfo: the token field of a case line (extents computed by Extent) and the comparison of
+// every real Token.End() with the independent extent.
+type TokInfo struct {
+	Field   string
+	Ends    map[token.Pos]int
+	EndDiff string // first token whose real End() differs from its extent ("" = none)
+	Panics  bool   // Token.End() panicked (Token.Len bound, C27)
+	Fallback int
+}
+
+func TokField(toks []*types.Token, src string) (ti TokInfo) {
+	ti.Ends = map[token.Pos]int{}
+	if len(toks) == 0 {
+		ti.Field = "-"
+		return
+	}
 	ps := make([]string, len(toks))
 	for i, t := range toks {
-		end := func() (e int) {
+		end, indep := Extent(t, src, 1)
+		if !indep {
+			ti.Fallback++
+		}
+		ti.Ends[t.Pos] = end
+		real := func() (e int) {
 			defer func() {
 				if recover() != nil {
-					ok, e = false, -1
+					ti.Panics, e = true, -1
 				}
 			}()
 			return int(t.End())
 		}()
+		if real >= 0 && real != end && ti.EndDiff == "" {
+			ti.EndDiff = fmt.Sprintf("token %d (%v %q at %d): Token.End() = %d, but its source text ends at %d", i, t.Tok, t.Lit, int(t.Pos), real, end)
+		}
 		ps[i] = fmt.Sprintf("%d:%s:%d:%d", uint(t.Tok), hx(t.Lit), int(t.Pos), end)
 	}
-	return strings.Join(ps, ","), ok
+	ti.Field = strings.Join(ps, ",")
+	return
 }
 
 // ---------------------------------------------------------------------------
@@ -492,6 +539,9 @@ func guard(f func() string) (out string) {
 
 var LastPanic string
 
+// LastTokInfo: extents of the tokens of the case in flight (worker side).
+var LastTokInfo TokInfo
+
 // RunMatch runs Compiler.Match / Parse / ParseExpr and renders "M … | P … | E …".
 func RunMatch(c tpl.Compiler, src string, toks []*types.Token) (out string, res any, n int, okMatch bool) {
 	idx := map[token.Pos]int{}
@@ -537,6 +587,7 @@ type shapeCtx struct {
 	toks  []*types.Token
 	flat  []*types.Token
 	procs bool
+	ends  map[token.Pos]int // independent extents
 }
 
 func (sc *shapeCtx) rule(name string) *Rule {
@@ -679,8 +730,8 @@ func (sc *shapeCtx) conforms(n *Node, v any, depth int) string {
 			if len(a) == 0 || len(b) == 0 {
 				return "R1 ++ R2 succeeded with an empty side"
 			}
-			if a[len(a)-1].End() != b[0].Pos {
-				return fmt.Sprintf("R1 ++ R2 succeeded but tokens do not touch (%d vs %d)", a[len(a)-1].End(), b[0].Pos)
+			if e := sc.ends[a[len(a)-1].Pos]; e != int(b[0].Pos) {
+				return fmt.Sprintf("R1 ++ R2 succeeded but tokens do not touch (source text ends at %d, next starts at %d)", e, b[0].Pos)
 			}
 		}
 	case "ref":
@@ -705,7 +756,7 @@ func flatten(v any, out *[]*types.Token) {
 }
 
 // ShapeOracle checks a successful match result against the README: (key, detail) or "".
-func ShapeOracle(g *Grammar, toks []*types.Token, res any, n int) (key, detail string) {
+func ShapeOracle(g *Grammar, toks []*types.Token, ends map[token.Pos]int, res any, n int) (key, detail string) {
 	procs := false
 	for _, r := range g.Rules {
 		if r.Proc != "" {
@@ -715,7 +766,7 @@ func ShapeOracle(g *Grammar, toks []*types.Token, res any, n int) (key, detail s
 	if n < 0 || n > len(toks) {
 		return "consumed-out-of-range", fmt.Sprintf("n=%d len=%d", n, len(toks))
 	}
-	sc := &shapeCtx{g: g, toks: toks, procs: procs}
+	sc := &shapeCtx{g: g, toks: toks, procs: procs, ends: ends}
 	if !procs {
 		var fl []*types.Token
 		flatten(res, &fl)
@@ -780,10 +831,12 @@ func procsMap(spec string) map[string]any {
 func Phase1(text, input, procs, genSx string) (caseLine, chk string, cmp Compiled, toks []*types.Token, skip string) {
 	cmp = Compile(text, procsMap(procs))
 	toks, fileEnd := Scan(input)
-	tf, ok := TokField(toks)
-	if !ok {
+	ti := TokField(toks, input)
+	LastTokInfo = ti
+	if ti.Panics {
 		return "", "", cmp, toks, "token End() panics"
 	}
+	tf := ti.Field
 	var gsx string
 	switch {
 	case cmp.ChkOut == "ok":
@@ -856,11 +909,14 @@ func WorkerMain() {
 		LastPanic = ""
 		m, res, n, okm := RunMatch(cmp.C, input, toks)
 		var orc []string
+		if LastTokInfo.EndDiff != "" {
+			orc = append(orc, "token-end-differs\x1f"+LastTokInfo.EndDiff)
+		}
 		if strings.Contains(m, "PANIC") {
 			orc = append(orc, "panic\x1f"+LastPanic)
 		}
 		if okm && curGrammar != nil {
-			if k, d := ShapeOracle(curGrammar, toks, res, n); k != "" {
+			if k, d := ShapeOracle(curGrammar, toks, LastTokInfo.Ends, res, n); k != "" {
 				orc = append(orc, k+"\x1f"+d)
 			}
 		}
